@@ -192,7 +192,6 @@ func (e *MetaCDC) ReloadTask() {
 		newCollectionNames := GetCollectionNamesFromTaskInfo(taskInfo)
 		e.collectionNames.data[uKey] = append(e.collectionNames.data[uKey], newCollectionNames...)
 		e.collectionNames.excludeData[uKey] = append(e.collectionNames.excludeData[uKey], taskInfo.ExcludeCollections...)
-		e.collectionNames.excludeData[uKey] = lo.Uniq(e.collectionNames.excludeData[uKey])
 		e.collectionNames.extraInfos[uKey] = model.ExtraInfo{
 			EnableUserRole: e.collectionNames.extraInfos[uKey].EnableUserRole || taskInfo.ExtraInfo.EnableUserRole,
 		}
@@ -325,6 +324,23 @@ func matchCollectionName(sampleCollection, targetCollection string) (bool, bool)
 	return (db1 == db2 || db1 == cdcreader.AllDatabase) &&
 			(collection1 == collection2 || collection1 == cdcreader.AllCollection),
 		db1 == cdcreader.AllDatabase || collection1 == cdcreader.AllCollection
+}
+
+// removeOnce removes one occurrence of every value from the names, because several tasks can exclude the same collection
+func removeOnce(names []string, values []string) []string {
+	result := make([]string, 0, len(names))
+	remain := make(map[string]int, len(values))
+	for _, v := range values {
+		remain[v]++
+	}
+	for _, name := range names {
+		if remain[name] > 0 {
+			remain[name]--
+			continue
+		}
+		result = append(result, name)
+	}
+	return result
 }
 
 // intersectCollectionName whether there is a collection which is selected by both names
@@ -474,8 +490,8 @@ func (e *MetaCDC) Create(req *request.CreateRequest) (resp *request.CreateRespon
 	revertCollectionNames := func() {
 		e.collectionNames.Lock()
 		defer e.collectionNames.Unlock()
-		e.collectionNames.excludeData[uKey] = lo.Without(e.collectionNames.excludeData[uKey], excludeCollectionNames...)
-		e.collectionNames.data[uKey] = lo.Without(e.collectionNames.data[uKey], newCollectionNames...)
+		e.collectionNames.excludeData[uKey] = removeOnce(e.collectionNames.excludeData[uKey], excludeCollectionNames)
+		e.collectionNames.data[uKey] = removeOnce(e.collectionNames.data[uKey], newCollectionNames)
 		e.refreshExtraInfoWithoutLock(uKey)
 	}
 
@@ -1452,8 +1468,8 @@ func (e *MetaCDC) delete(taskID string) error {
 	e.cdcTasks.Unlock()
 
 	e.collectionNames.Lock()
-	e.collectionNames.excludeData[uKey] = lo.Without(e.collectionNames.excludeData[uKey], info.ExcludeCollections...)
-	e.collectionNames.data[uKey] = lo.Without(e.collectionNames.data[uKey], collectionNames...)
+	e.collectionNames.excludeData[uKey] = removeOnce(e.collectionNames.excludeData[uKey], info.ExcludeCollections)
+	e.collectionNames.data[uKey] = removeOnce(e.collectionNames.data[uKey], collectionNames)
 	e.refreshExtraInfoWithoutLock(uKey)
 	e.collectionNames.Unlock()
 
